@@ -51,6 +51,15 @@ impl Value {
         }
     }
 
+    /// Returns the value in the form in which it is stored: the file format
+    /// has a single representation for null and for the empty string.
+    pub(crate) fn into_stored(self) -> Value {
+        match self {
+            Value::Str(ref string) if string.is_empty() => Value::Null,
+            value => value,
+        }
+    }
+
     /// Creates a boolean value.
     pub(crate) fn from_bool(boolean: bool) -> Value {
         if boolean {
@@ -162,7 +171,7 @@ impl ValueRef {
     /// Interns the given value into the string pool (if it is a string), and
     /// returns a corresponding `ValueRef`.
     pub fn create(value: Value, string_pool: &mut StringPool) -> ValueRef {
-        match value {
+        match value.into_stored() {
             Value::Null => ValueRef::Null,
             Value::Int(number) => ValueRef::Int(number),
             Value::Str(string) => ValueRef::Str(string_pool.incref(string)),
